@@ -56,12 +56,13 @@ def load_own_findings(ctx):
 
 # --------------------------------------------------------------------------- generators
 def gen_mission(rng, kinds=None) -> dict:
-    kinds = kinds or ['ok', 'ok', 'ok', 'unknown_orig', 'unknown_dest', 'orig_high', 'dest_high', 'envelope', 'short', 'given']
+    kinds = kinds or ['ok', 'ok', 'ok', 'unknown_orig', 'unknown_dest', 'orig_high', 'dest_high', 'envelope', 'short', 'given',
+                      'envelope_start']
     kind = str(rng.choice(kinds))
     case = L.gen_case(rng, n_choices=[2, 3, 7, 33, 50, 51])
     case['want'] = kind
     case['perf'] = {'kind': 'sample'} if rng.random() < 0.6 else case['perf']
-    if kind in ('ok', 'given', 'envelope', 'unknown_orig', 'unknown_dest'):
+    if kind in ('ok', 'given', 'envelope', 'envelope_start', 'unknown_orig', 'unknown_dest'):
         o = [float(rng.uniform(-120, -70)), float(rng.uniform(25, 50)), float(rng.uniform(0, 500))]
         d = [o[0] + float(rng.uniform(8, 40)) * (1 if o[0] < -95 else -1), float(rng.uniform(25, 50)), float(rng.uniform(0, 500))]
         case.update(orig=o, dest=d, tag='ordinary', load_factor=1.0)
@@ -79,6 +80,8 @@ def gen_mission(rng, kinds=None) -> dict:
         case['load_factor'] = 0.0
         case['perf'] = {'kind': 'sample'}
         case['dest'] = [case['orig'][0] + 1.5, case['orig'][1] + 1.0, 10.0]
+    elif kind == 'envelope_start':
+        case['perf'] = {'kind': 'sample_low', 'max_alt_ft': int(rng.choice([12000, 11000, 12500]))}
     elif kind == 'short':
         case['dest'] = [case['orig'][0] + 0.3, float(np.clip(case['orig'][1] + 0.2, -89, 89)), case['dest'][2]]
     elif kind == 'given':
